@@ -681,8 +681,102 @@ func checkF4(c *fw.Ctx) {
 	c.Min(rule+" call sites", n, 3)
 }
 
+// checkNilCached: a nil stored under a key of a pointer-valued map (a negative cache entry)
+// comes back as a *hit* of the comma-ok lookup; handing that hit on without a nil test gives
+// the caller a nil to dereference.
+func checkNilCached(c *fw.Ctx) {
+	rule := "F5 nil-from-map"
+	construct := "a nil placed in a pointer-valued cache is not handed out as a hit"
+	mapField := func(m ssa.Value) string {
+		s := strings.TrimLeft(fw.Sig(m), "*&")
+		if i := strings.LastIndex(s, "."); i >= 0 && !strings.ContainsAny(s[i:], "([") {
+			return s[i+1:]
+		}
+		return ""
+	}
+	nilStores := map[string]string{}
+	var funcs []*ssa.Function
+	for _, fn := range c.P.SrcFuncs() {
+		if fn.Pkg == nil || fn.Pkg.Pkg.Path() != fw.ModPath {
+			continue
+		}
+		funcs = append(funcs, fn)
+		for _, b := range fn.Blocks {
+			for _, ins := range b.Instrs {
+				mu, ok := ins.(*ssa.MapUpdate)
+				if !ok {
+					continue
+				}
+				if _, isPtr := mu.Value.Type().Underlying().(*types.Pointer); !isPtr {
+					continue
+				}
+				if k, isC := mu.Value.(*ssa.Const); isC && k.Value == nil {
+					if f := mapField(mu.Map); f != "" {
+						nilStores[f] = c.P.Pos(fw.InstrPos(mu))
+					}
+				}
+			}
+		}
+	}
+	nBad := 0
+	for _, fn := range funcs {
+		for _, b := range fn.Blocks {
+			for _, ins := range b.Instrs {
+				lk, ok := ins.(*ssa.Lookup)
+				if !ok || !lk.CommaOk {
+					continue
+				}
+				at, has := nilStores[mapField(lk.X)]
+				if !has || lk.Referrers() == nil {
+					continue
+				}
+				for _, r := range *lk.Referrers() {
+					ex, isEx := r.(*ssa.Extract)
+					if !isEx || ex.Index != 0 || ex.Referrers() == nil {
+						continue
+					}
+					// the hit, followed through merges (the result variables of an expanded helper)
+					seen := map[ssa.Value]bool{}
+					var visit func(v ssa.Value)
+					visit = func(v ssa.Value) {
+						if seen[v] || v.Referrers() == nil {
+							return
+						}
+						seen[v] = true
+						for _, u := range *v.Referrers() {
+							if fw.KnownNonNil(v, u.Block()) {
+								continue
+							}
+							switch x := u.(type) {
+							case *ssa.Phi:
+								visit(x)
+							case *ssa.Return:
+								nBad++
+								c.Fail(rule, construct, c.P.Pos(fw.InstrPos(x)), fmt.Sprintf("%s returns the value found in the map as a hit without a nil test, and nil is stored into that map at %s: the second caller for that key receives nil where the first got an error", fw.FuncName(fn), at))
+							case *ssa.FieldAddr:
+								nBad++
+								c.Fail(rule, construct, c.P.Pos(fw.InstrPos(x)), fmt.Sprintf("%s dereferences the value found in the map without a nil test, and nil is stored into that map at %s", fw.FuncName(fn), at))
+							case *ssa.Call:
+								if cal := x.Call.StaticCallee(); cal != nil && cal.Signature.Recv() != nil && len(x.Call.Args) > 0 && x.Call.Args[0] == v && c.P.IsRepoFunc(cal) {
+									nBad++
+									c.Fail(rule, construct, c.P.Pos(x.Pos()), fmt.Sprintf("%s calls %s on the value found in the map without a nil test, and nil is stored into that map at %s", fw.FuncName(fn), fw.FuncName(cal), at))
+								}
+							}
+						}
+					}
+					visit(ex)
+				}
+			}
+		}
+	}
+	if nBad == 0 {
+		c.Ok(rule, construct, "", fmt.Sprintf("%d pointer-valued map(s) receive a nil constant; no comma-ok hit of them is handed on untested", len(nilStores)))
+	}
+}
+
 func checkF5(c *fw.Ctx) {
 	rule := "F5 nil-from-map"
+	checkNilCached(c)
 	n := 0
 	for _, fn := range c.P.SrcFuncs() {
 		if fn.Pkg == nil || fn.Pkg.Pkg.Path() != fw.ModPath {
